@@ -473,6 +473,9 @@ def run(ctx, res):
     outs = C.run_driver(lines)
     for (kernel, inp, want), line in zip(cases, outs):
         compare(res, kernel, inp, want, line)
+    # representation- and history-robustness of the public functions (harness/apirobust.py)
+    from .. import apirobust_cases as _AC
+    _AC.c20(res, np.random.default_rng(ctx["seed"] + 4242), ctx)
 
 
 def compare(res, kernel, inp, want, line):
